@@ -181,6 +181,37 @@ CHECKS["C02"] = dict(
     technique="Coq proof (product invariant over the observable automaton; refinement link to the detailed limiter model) + trace-acceptance correspondence",
     design="DESIGN.md section 6 C02, section 13")
 
+ENGINE_NOTE = ("the theorem is about the observable automaton of coq/engine, tied to /repo by trace acceptance of real engine runs "
+               "(schedules steered by the harness director and sampled, not enumerated; child processes; > 11 000 traces accepted with zero "
+               "rejections when the core was validated) and by the source-derived ties named in the text; overrun returns (attempts the engine "
+               "timed out) and background continuous-check runs are exempt by pinned interpretation (DESIGN section 11); ")
+CHECKS["C01"] = dict(
+    engine="coq-engine",
+    text="Coq theorem c01_order_and_gates: for EVERY shape, trace and interleaving accepted by the observable engine automaton the monitor "
+         "mon_order holds (blocks one at a time in declared order; actions of a sequence in order, each only after its predecessor's last "
+         "return was ok, at most one in flight, nothing after a failed action; every sequence action only after all-ok runs of the plan's "
+         "and the block's pre groups and initial continuous runs; post after all started sequences, deferred last), proved by a product "
+         "invariant over all handlers and epsilon-moves, with two first-order restatements (gates, predecessor ok). Every real trace must be "
+         "accepted by the automaton AND satisfy mon_order (vm_compute); the state-chain graph is regenerated from the Go source on every "
+         "run and its dominance facts (sequences gated by pre-check states, post only through sequences, ...) are re-proved in Coq.",
+    note=ENGINE_NOTE + "goroutines that emit no plugin event are invisible; attempt counts are C05, launch guard C02/C03, bypass C06, continuous failures C07",
+    technique="Coq proof (product invariant automaton x monitor, induction over the trace) + trace-acceptance correspondence + source-generated graph facts",
+    design="DESIGN.md section 6 C01, section 13")
+CHECKS["C03"] = dict(
+    engine="coq-engine",
+    text="Coq theorems: mon_tol (13 clauses: at most tol+conc failed sequences; a sequence starts only under the launch condition "
+         "I < conc /\\ (tol < 0 \\/ f + I <= tol + conc - 1) and while the block is Running; with conc = 1 nothing after the exceeding "
+         "failure; block Failed only with a cause and only with nothing in flight, Completed only without; no later block after a Failed "
+         "block; plan Failed) holds on EVERY trace accepted by the observable automaton (c03_tolerance, c03_release, "
+         "c03_bound_and_verdict), the block verdict is schedule independent at automaton level, and the detailed limiter mechanism model "
+         "satisfies the same guard/bounds on all its interleavings (coq/limiter). Correspondence: the 360-plan bounded-exhaustive family "
+         "(tol x conc x <= 4 sequences x failing subsets, permuted completion orders) + mixed + multi-plan runs, acceptance and monitor by "
+         "vm_compute; statement-by-statement source-shape tie of ExecuteSequences.",
+    note=ENGINE_NOTE + "orderings without an observable event (failures.Add vs. limiter release) are tied only by the source-shape check; "
+         "recovery entry with pre-counted failures is proved at mechanism level only",
+    technique="Coq proof (reachable-state invariant + two-mode product relation; mechanism model invariants) + trace-acceptance correspondence",
+    design="DESIGN.md section 6 C03, section 13")
+
 PENDING_REASON = "check under construction in this session (see DESIGN.md section 12 build order); not yet claimed"
 
 
